@@ -158,17 +158,20 @@ func markValue(v reflect.Value, marker string) bool {
 }
 
 type planted struct {
-	Path  accessPath
-	Kind  string
-	Ptr   interface{}   // for iface/ptr leaves: the pointer planted
-	Val   reflect.Value // for val leaves: copy of the planted struct value
-	OK    bool          // planting succeeded
-	Why   string
+	Path accessPath
+	Kind string
+	Ptr  interface{}   // for iface/ptr leaves: the pointer planted
+	Val  reflect.Value // for val leaves: copy of the planted struct value
+	OK   bool          // planting succeeded
+	Why  string
 }
 
 // plant puts a sentinel at path p inside root (addressable struct value).  Slices on the path get two
 // elements; idx selects which element of the innermost slice receives the sentinel, so that planting with
 // idx 0 and idx 1 populates both (a Children() that mishandles multi-element slices is then visible).
+// plantConcrete, when set, makes plant() put a node of exactly this type into interface-typed slots.
+var plantConcrete reflect.Type
+
 func plant(root reflect.Value, p accessPath, marker string, idx int) planted {
 	res := planted{Path: p, Kind: p.Leaf}
 	cur := root
@@ -213,6 +216,20 @@ func plant(root reflect.Value, p accessPath, marker string, idx int) planted {
 	}
 	switch p.Leaf {
 	case leafIface:
+		if plantConcrete != nil {
+			// a chosen concrete node type in an interface-typed slot (Children() may treat dynamic types differently)
+			pt := reflect.PointerTo(plantConcrete)
+			if pt.AssignableTo(cur.Type()) {
+				nv := reflect.New(plantConcrete)
+				markValue(nv.Elem(), marker)
+				cur.Set(nv)
+				res.Ptr = nv.Interface()
+				res.OK = true
+				return res
+			}
+			res.Why = "concrete type not assignable"
+			return res
+		}
 		for _, c := range ifaceCandidates(marker) {
 			if c.Type().AssignableTo(cur.Type()) {
 				cur.Set(c)
@@ -295,11 +312,11 @@ func safeChildren(n ast.Node) (kids []ast.Node, panicked string) {
 // reflect-reachable nodes of a real tree
 
 type reachNode struct {
-	Kind string // ptr | val
-	Type string
-	Path string // type-level path from parent: ParentType.fieldpath
-	Ptr  interface{}
-	Val  interface{} // copy of the struct for val nodes
+	Kind   string // ptr | val
+	Type   string
+	Path   string // type-level path from parent: ParentType.fieldpath
+	Ptr    interface{}
+	Val    interface{} // copy of the struct for val nodes
 	Parent int
 }
 
